@@ -30,6 +30,9 @@ func Sanitize(query string) string {
 	// operand is true where the next token starts an operand: there a slash opens a
 	// regex literal (whose text may contain quotes), elsewhere it is a division.
 	operand, cast := true, false
+	// numEnd is the index just past the last word made of digits only: a dot there is the
+	// decimal point of a number (1./2 is a division), not the separator of a dotted name.
+	numEnd := -1
 	redact := func(i, j int) {
 		buf.WriteString(query[last:i])
 		buf.WriteString("[REDACTED]")
@@ -85,6 +88,9 @@ func Sanitize(query string) string {
 				j++
 			}
 			word := strings.ToLower(query[i:j])
+			if strings.Trim(word, "0123456789") == "" {
+				numEnd = j
+			}
 			if state == seenFor && j < len(query) && query[j] == '"' {
 				// The scanner reads abc"def" as a single identifier: let the quoted part end the user name.
 				i = j
@@ -121,7 +127,7 @@ func Sanitize(query string) string {
 			cast = c == ':' && i > 0 && query[i-1] == ':'
 			// A closing parenthesis ends an operand, and so does a star that stands where an operand
 			// is expected (a wildcard, not a multiplication).
-			operand = c != ')' && !(c == '*' && operand)
+			operand = c != ')' && !(c == '*' && operand) && !(c == '.' && i == numEnd)
 			i++
 		}
 	}
